@@ -32,6 +32,7 @@ def fc(n, grouping, desc=12, timeout=1500, meta=1):
                   unwind=max(18, n + 2), timeout=timeout, unwindset={"file_write.0": fsz + 1}, composite=True)
     h.what = "tiff-json composite: side_by_side_tiff_init/append/stop/destroy (clang IR -> C) around the translated tiff writer; set/start modelled by hand after the source (guarded by a source-text check); %d frame(s); same streaming reader on data.tif; metadata.json written and closed" % n
     h.bounds = dict(frames=n, image_bytes=8, metadata="absent or {}")
+    h.est_gb = 18
     return h
 
 def harnesses(tier, findings):
@@ -41,13 +42,13 @@ def harnesses(tier, findings):
         a = f(1, 1); a.solver = "kissat"; a.name += "_kissat"; a.timeout = 900
         return [a, f(1, 1, timeout=900)]
     if tier == "quick":
-        return [f(1, 1), f(1, 1, file_uri=1, meta=1), fstep()]
-    return [f(1, 1), f(1, 1, file_uri=1, meta=1), f(2, 1, timeout=3000), f(2, 2, timeout=3000), f(1, 1, desc=30, timeout=3000), fstep(3000)]
+        return [f(1, 1), f(1, 1, file_uri=1, meta=1), fstep(), fc(1, 1, timeout=1500, meta=1)]
+    return [f(1, 1), f(1, 1, file_uri=1, meta=1), f(2, 1, timeout=3000), f(2, 2, timeout=3000), f(1, 1, desc=30, timeout=3000), fstep(3000), fc(1, 1, timeout=3000, meta=1), fc(1, 1, timeout=3000, meta=0)]
 
 META = dict(
     level="model_checking",
-    bounds=dict(quick="N=1 frame, 8 image bytes, all widths/heights/types/ids/timestamps/pixels, plain and file:// URI", thorough="N=2 in both groupings, description length 30"),
-    outside="the tiff-json composite (side-by-side-tiff.cpp: std::filesystem in set/start cannot be translated); Tiff::set's std::string handling beyond the two URIs; metadata other than the one fixed text; the TEXT vsnprintf renders (the model checks the format's key/conversion structure and the arguments, not libc's output); N>2; image bytes other than 8; repeated start/stop cycles (covered for descriptors by C16)",
+    bounds=dict(quick="N=1 frame, 8 image bytes, all widths/heights/types/ids/timestamps/pixels, plain and file:// URI; tiff-json composite with metadata, N=1", thorough="N=2 in both groupings, description length 30; tiff-json with and without metadata"),
+    outside="tiff-json: side_by_side_tiff_set/_start (std::filesystem) are modelled by hand after the source (the run refuses when that source text changes), so folder creation and path handling are not decided; Tiff::set's std::string handling beyond the two URIs; metadata other than the one fixed text; the TEXT vsnprintf renders (the model checks the format's key/conversion structure and the arguments, not libc's output); N>2; image bytes other than 8; repeated start/stop cycles (covered for descriptors by C16)",
     assumptions=["clang++-14 -O1 IR of tiff.cpp translated to C by ir2c/ir2c.py; every run checks the generated C against the g++ build on 6 scenarios (byte-identical files)",
                  "file layer modelled at the platform API; vsnprintf returns a fixed length, walks the format and records each argument with the JSON key that precedes its conversion", "allocation stubs return fixed-capacity objects", "HAL storage.c is the real code"],
 )
